@@ -208,6 +208,8 @@ class Num:
             return self.ty_of(t[1])
         if k == "lincomb":
             return "usize"
+        if k == "wordop":
+            return self.ty_of(t[2])
         if k == "havoc":
             return t[2]
         if k in ("trip", "slen", "ghost"):
